@@ -14,8 +14,10 @@ TRUSTED = [
     "harness/walktap.py (observation from outside) and the fault injector of this file (a wrapper in walker.functions that raises at one chosen key)",
     "twin run: the same formulas built in a second, untouched Environment; results compared up to the order of commutative arguments",
     "the SMT-LIB parser, the formula manager's node table and solver objects are not modelled in Coq: their part of C15 is decided by the twin comparison only",
+    "solver objects: harness/c17.py's fault family (run_fault_family) drives the real SmtLibSolver against the strict reference solver process harness/smtref.py; the twin is the history without the failing call, judged by that check's oracle (brute-force verdicts, no exception, legal stream)",
 ]
 ASSUMPTIONS = [
+    "the solver-object clause is exercised on the text-interface solver only (SmtLibSolver; no native solver is available): one failing call per history (assertion refused by the solver after its declarations, construction rejected by pysmt, value query without a sat answer, pop below level 0) followed by 1-4 legal calls; values of symbols first declared by the failing call and a solver process that dies are not compared",
     "answers are compared as: same value, or both raise (ans_equiv) for persistent walkers, equal outright for the one-shot walker; which exception is raised first is compared in the twin run only",
     "for SizeOracle the probes that the model sees use the measure of the failing call (the stack stores formulas, the model stores keys)",
     "walker objects created per call (NNFizer, CNFizer, PolarityCNFizer - whose own iter_walk has no try/except -, PrenexNormalizer, AIGer, SmtDagPrinter) are not long-lived and not probed",
@@ -99,7 +101,7 @@ def outcome(thunk):
 
 
 def canon_outcome(o):
-    return (o[0], walkgen.canon_value(o[1]) if o[0] == "ok" else o[1])
+    return (o[0], walkgen.canon_key(o[1]) if o[0] == "ok" else o[1])
 
 
 def key_of(kind, f):
@@ -576,7 +578,7 @@ def run_parser(chk, rnd, stats):
 
     def parse(p, txt):
         sc = p.get_script(io.StringIO(txt))
-        return [(c.name, [walkgen.canon_value(a) if hasattr(a, "node_id") else str(a) for a in c.args]) for c in sc.commands]
+        return [(c.name, [walkgen.canon_key(a) if hasattr(a, "node_id") else str(a) for a in c.args]) for c in sc.commands]
     for label, bad in BAD_SCRIPTS:
         for gi, good in enumerate(GOOD_SCRIPTS):
             env, twin = Environment(), Environment()
@@ -803,10 +805,10 @@ def run_binder_faults(chk, rnd, rows, stats):
                             stats["failing_calls"] += 1
                             extra = [(wname, w)] if wname.startswith("reused") else []
                             ok = stacks_empty(chk, env, "%s failing below a %s under %s" % (wname, "forall" if forall else "exists", "/".join(kinds)),
-                                              {"history": ["%s(%s)" % (wname, walkgen.canon(F)[:300])], "repro": "harness.c15.replay_binder_fault()"}, extra)
+                                              {"history": ["%s(%s)" % (wname, walkgen.canon_key(F)[:300])], "repro": "harness.c15.replay_binder_fault()"}, extra)
                         later = [canon_outcome(outcome(lambda: call_ok(w, f))) for f in (G1, G2, G1)]
                         stats["probe_calls"] += 3
-                        res.append((first, later, ok, walkgen.canon(F)))
+                        res.append((first, later, ok, walkgen.canon_key(F)))
                     (first, later, ok, fk), (_, tlater, _, _) = res
                     chk.count(("binder-fault", wname, depth, forall, order, tuple(kinds)))
                     if first[0] != "raise":
@@ -964,6 +966,13 @@ def run(tier):
     if meta:
         chk.sample(meta[0])
         chk.sample(meta[-1])
+    # the SOLVER-object clause: failing calls on a text-interface solver (C17's fault family)
+    try:
+        from . import c17
+        if not chk.enough():
+            chk.cov["solver_object_faults"] = c17.run_fault_family(chk, rnd, 40 if tier == "quick" else 400)
+    except ImportError:
+        chk.cov["solver_object_faults"] = "harness/c17.py not available: the solver-object clause was not exercised"
     if (not ok or corr_bad) and not chk.violations:
         what = []
         if not ok:
@@ -1024,6 +1033,9 @@ def replay(path):
     r = json.load(open(path))
     print(json.dumps(r, indent=1)[:3000])
     rep = r.get("repro", "")
+    if str(r.get("mode", "")).startswith("fault:"):      # a solver-object history: replayed by the C17 harness
+        from . import c17
+        return c17.replay(path)
     if rep.startswith("harness.c15.replay_"):
         rep = rep if rep.endswith(")") else rep + ")"
         return eval(rep[len("harness.c15."):])
